@@ -181,6 +181,13 @@ fn main() {
                     || format!("(run_feat_f {} false {} {} {})", fi, coq_nat(w), mp_coq, xs_coq),
                     || { let d: VecDeque<f64> = vh::wrapped_deque(xs);
                          out_cells(guarded(|| call_valid!(fi_, d, w, mp, Vec<f64>))) }); }
+                // f64 input seen through a REVERSED contiguous ndarray view (stride -1; ndarray fast paths = index body)
+                if rng.chance(1, 4) { em.case(cmp, &tags("f64", "nd_rev"), &desc("f64", "nd_rev"),
+                    || format!("(run_feat_f {} true {} {} {})", fi, coq_nat(w), mp_coq, xs_coq),
+                    || { use tevec::export::ndarray::{Array1, ArrayView1, s};
+                         let rev = Array1::from_vec(xs.iter().rev().cloned().collect::<Vec<f64>>());
+                         let v: ArrayView1<f64> = rev.slice(s![..;-1]);
+                         out_cells(guarded(|| call_valid!(fi_, v, w, mp, Vec<f64>))) }); }
                 // Option<f64> input -> Option<f64> output
                 if rng.chance(1, 3) { em.case(cmp, &tags("optf64", "vec"), &desc("optf64", "vec"),
                     || format!("(run_feat_o {} true {} {} {})", fi, coq_nat(w), mp_coq, xo_coq),
